@@ -705,6 +705,19 @@ func scaleCases(prefix string) []cases.ScanCase {
 	lc.Family = "scale"
 	out = append(out, lc)
 	{
+		// commit and tag objects bigger than the buffers they travel through (64 KiB pipe, 4 KiB bufio)
+		var g model.Graph
+		names := map[int][]byte{1: []byte("f")}
+		g.Blobs = []int{5}
+		g.Trees = [][]model.Entry{{{K: "file", To: 1, N: 1, NL: 1}}}
+		g.Commits = []model.Commit{{Tree: 1, Parents: []int{}, Size: 70000}, {Tree: 1, Parents: []int{1}, Size: 4097}, {Tree: 1, Parents: []int{2}, Size: 200000}, {Tree: 1, Parents: []int{3}}}
+		g.Tags = []model.Tag{{TK: "c", To: 3, Size: 100000}, {TK: "g", To: 1, Size: 66000}}
+		g.Normalize()
+		out = append(out, cases.ScanCase{ID: prefix + "-scale-bigobjects", G: g, Names: names, Style: "full", Family: "scale",
+			Roots: []cases.RootSpec{{O: model.Oid{K: "c", I: 4}, Walk: true, IsRef: true, Name: "refs/heads/main", Kind: "plain"},
+				{O: model.Oid{K: "g", I: 2}, Walk: true, IsRef: true, Name: "refs/tags/big", Kind: "plain"}}})
+	}
+	{
 		var g model.Graph
 		names := map[int][]byte{1: []byte("leaf.txt"), 2: []byte("d")}
 		g.Blobs = []int{12}
